@@ -36,17 +36,18 @@ type Step struct {
 }
 
 type Trace struct {
-	H        *History
-	Steps    []*Step
-	Faults   map[int]string
-	UPFIP    string
-	Probe    string
-	NCalls   int // faultable calls seen
-	Fatal    []string
-	Abort    string // barrier / watchdog failure: the rest of the history was not executed
-	SMFIPs   []string
-	SMFAddrs [][]string
-	NoRemRep bool // the data plane returned no final report on removals (C12's report expectations do not apply)
+	H          *History
+	Steps      []*Step
+	Faults     map[int]string
+	UPFIP      string
+	Probe      string
+	NCalls     int // faultable calls seen
+	Fatal      []string
+	Abort      string // barrier / watchdog failure: the rest of the history was not executed
+	SMFIPs     []string
+	SMFAddrs   [][]string
+	RealDriver bool // the history ran on the real gtp5g driver over the simulated kernel
+	NoRemRep   bool // the data plane returned no final report on removals (C12's report expectations do not apply)
 }
 
 var Timing = os.Getenv("VERIF_TIMING") != ""
@@ -58,13 +59,23 @@ type Runner struct {
 	// report (what forwarder.Empty does); the session then keeps the URR's record.
 	NoRemoveReport bool
 	// Driver returns the driver for a run; nil means a fresh ModelDP.
-	NewDriver func() (forwarder.Driver, func() map[RuleKey]int, func())
+	NewDriver func() *DriverKit
 	ExtraSock bool
 }
 
 // RemBase: fault-plan keys from RemBase on address remove calls (key-RemBase = index among the remove calls);
 // the only mode for them is "na" (the data plane refuses the removal, the rule stays installed).
 const RemBase = 1 << 20
+
+// DriverKit is what a non-model data plane brings to a run.
+type DriverKit struct {
+	Driver  forwarder.Driver
+	Table   func() map[RuleKey]int
+	Cleanup func()
+	Attach  func(report.Handler)       // re-installs the report handler after the server exists (barrier wrapper); may be nil
+	Refuse  func(kind string, on bool) // makes the (simulated) kernel refuse removals of that rule kind; may be nil
+	Tick    func(time.Duration) bool   // injects one tick of a period into the real periodic server and waits for it; may be nil
+}
 
 // Run executes one history with the given fault plan.
 func (rn *Runner) Run(h *History, faults map[int]string) *Trace {
@@ -82,14 +93,19 @@ func (rn *Runner) Run(h *History, faults map[int]string) *Trace {
 	var table func() map[RuleKey]int
 	var cleanup func()
 	var mdp *ModelDP
+	var kit *DriverKit
 	if rn.NewDriver != nil {
-		inner, table, cleanup = rn.NewDriver()
+		kit = rn.NewDriver()
+		inner, table, cleanup = kit.Driver, kit.Table, kit.Cleanup
 	} else {
 		mdp = NewModelDP()
 		mdp.NoRemRep = rn.NoRemoveReport
 		inner, table = mdp, mdp.Table
 	}
 	tap := &Tap{Inner: inner, Faults: faults, RemFaults: remFaults}
+	if kit != nil {
+		tap.KernelRefuse = kit.Refuse
+	}
 	TakeFatals()
 	t0 := time.Now()
 	env, err := StartEnv(tap, EnvOpts{MaxRetrans: rn.MaxRetrans})
@@ -101,6 +117,10 @@ func (rn *Runner) Run(h *History, faults map[int]string) *Trace {
 		tr.Abort = "start: " + err.Error()
 		return tr
 	}
+	if kit != nil && kit.Attach != nil {
+		kit.Attach(env.Srv)
+	}
+	tr.RealDriver = kit != nil
 	tr.UPFIP = env.UPFIP.String()
 	tr.Probe = env.ProbeAddr()
 	extra := 0
@@ -251,15 +271,19 @@ func (rn *Runner) Run(h *History, faults map[int]string) *Trace {
 				// association owns nothing else - judged on the server's state now (stale handles and faults make
 				// the generator's own book-keeping unreliable here)
 				owned := 0
+				own := false
 				if seid >= 1 && int(seid) <= len(st.Pre.Slots) && st.Pre.Slots[seid-1] != nil {
 					nid := st.Pre.Slots[seid-1].NodeID
+					if k := op.Takeover - 1; k < len(smfs) && smfs[k].IP.String() == nid {
+						own = true // the IE repeats the node id the association already has: nothing to move
+					}
 					for _, x := range st.Pre.Slots {
 						if x != nil && x.NodeID == nid {
 							owned++
 						}
 					}
 				}
-				if owned > 1 {
+				if owned > 1 && !own {
 					cp := *op
 					cp.Takeover = 0
 					op = &cp
@@ -302,6 +326,29 @@ func (rn *Runner) Run(h *History, faults map[int]string) *Trace {
 			if st.Err == "" {
 				if err := env.Barrier(); err != nil {
 					st.Err = "barrier: " + err.Error()
+				}
+			}
+		case "tick":
+			// one tick of a measurement period in the real periodic server (real-driver runs only)
+			if kit != nil && kit.Tick != nil {
+				answer = "accept"
+				answerUP = 1
+				st.Sent = true
+				if !kit.Tick(time.Duration(op.Period) * time.Second) {
+					st.Err = "tick barrier timed out"
+				}
+				if st.Err == "" {
+					if err := env.Barrier(); err != nil {
+						st.Err = "barrier: " + err.Error()
+					}
+				}
+				for _, s := range smfs {
+					s.Pump()
+				}
+				if st.Err == "" {
+					if err := env.Barrier(); err != nil {
+						st.Err = "barrier: " + err.Error()
+					}
 				}
 			}
 		case "lateans":
